@@ -377,7 +377,7 @@ def shape(line):
     cb = ','.join(re.sub(r':.*', '', e) for e in f.get('cb', '').split(';') if e)
     return (opname(line), f.get('rc', '').split(',')[0], sh_[:80], cb)
 
-def execute(run, gen_fn, variants=('cache',), cone=None, monitor=None, model_args=(), strip_faults=False):
+def execute(run, gen_fn, variants=('cache',), cone=None, monitor=None, model_args=(), strip_faults=False, corpus=True):
     """generate, run both sides, compare, monitor.  Returns divergences."""
     prop = run.prop
     g = gen_ops.Scripts(run.seed)
@@ -385,7 +385,7 @@ def execute(run, gen_fn, variants=('cache',), cone=None, monitor=None, model_arg
     corpus_dir = os.path.join(ROOT, 'corpus')
     text = ''
     n = 0
-    for fn in sorted(os.listdir(corpus_dir)):
+    for fn in sorted(os.listdir(corpus_dir)) if corpus else []:
         if fn.endswith('.ops'):
             n += 1
             body = open(os.path.join(corpus_dir, fn)).read()
@@ -408,8 +408,11 @@ def execute(run, gen_fn, variants=('cache',), cone=None, monitor=None, model_arg
                 out.append(line)
         text = '\n'.join(out) + '\n' 
     scripts = split_scripts(text)
+    if len(variants) and variants[0] != 'cache':
+        # keep the script names of different builds apart
+        scripts = [[s[0] + ' [' + variants[0] + ']'] + s[1:] for s in scripts]
     by_hdr = {s[0]: s for s in scripts}
-    run.by_hdr = by_hdr
+    run.by_hdr = dict(getattr(run, 'by_hdr', {}), **by_hdr)
     binary, err = build_harness(variants[0])
     if binary is None:
         run.violations.append(('harness does not build against the working tree: ' + err[-300:], ['# build failure'], {}))
@@ -505,18 +508,19 @@ def replay(path):
     head = open(path).read(200)
     if path.endswith('.args') or head.startswith('# tool'):
         return replay_tool(path)
-    binary, err = build_harness('cache')
+    text = open(path).read()
+    mcap = re.search(r'\[cap(\d+)\]', text.splitlines()[0] if text else '')
+    binary, err = build_harness('cap' + mcap.group(1) if mcap else 'cache')
     if binary is None:
         print(err)
         return 2
-    text = open(path).read()
     if not text.startswith('# script'):
         text = '# script r1 replay\n' + text
     scripts = split_scripts(text)
     impl = run_impl(binary, scripts)
     sh([sys.executable, os.path.join(ROOT, 'gen', 'extract.py'), '--repo', REPO])
     sh(['lake', 'build', 'sxmodel'], cwd=LEAN)
-    model = run_model(scripts)
+    model = run_model(scripts, ('--cap', mcap.group(1)) if mcap else ())
     for s in scripts:
         il, iab = impl.get(s[0], ([], None))
         ml, _ = model.get(s[0], ([], None))
